@@ -4,13 +4,13 @@ LEVEL = "proof"
 
 def check(rep, tier):
     from contracts import core_outgrads, core_rules
-    core_outgrads.run(rep, tier)
-    core_rules.run(rep, tier, parts=("defvjp", "defvjp_argnum"))
+    rep.run(core_outgrads.run, rep, tier)
+    rep.run(core_rules.run, rep, tier, parts=("defvjp", "defvjp_argnum"))
     from contracts import rules_exact
-    rules_exact.run(rep, tier, rules_exact.CLAUSE_PROPS["C10"])
+    rep.run(rules_exact.run, rep, tier, rules_exact.CLAUSE_PROPS["C10"])
     from contracts import containers
-    containers.run_ground(rep, tier)
+    rep.run(containers.run_ground, rep, tier)
     from contracts import discipline
-    discipline.run_frame(rep, tier)
+    rep.run(discipline.run_frame, rep, tier)
     from contracts import core_backward
-    core_backward.run_proof(rep, tier, which=('backward_pass',))
+    rep.run(core_backward.run_proof, rep, tier, which=('backward_pass',))
